@@ -203,7 +203,7 @@ def case_term(kind, schemes, cvs, dtype, vre, vim, conv, pts, mesh, variants, ou
 
 
 def interp_cases(rng, tier, variants):
-    cs = C.CaseSet('interp', ['C15.Syntax', 'C15.Model', 'C15.Corr'], 'check', 'case')
+    cs = C.CaseSet('interp', ['C15.Syntax', 'C15.Model', 'C15.Call', 'C15.Corr'], 'check', 'case')
     n_cases = 700 if tier == 'quick' else 3500
     for it in range(n_cases):
         d = rng.choice([1, 1, 2, 2, 3])
@@ -420,7 +420,7 @@ exec(SAMPLE_SRC)
 
 
 def sampling_cases(rng, tier):
-    cs = C.CaseSet('sampling', ['C15.Syntax', 'C15.Model', 'C15.Corr'], 'scheck', 'scase')
+    cs = C.CaseSet('sampling', ['C15.Syntax', 'C15.Model', 'C15.Call', 'C15.Corr'], 'scheck', 'scase')
     n_cases = 360 if tier == 'quick' else 1800
     for it in range(n_cases):
         d = rng.choice([1, 1, 2, 2, 3])
@@ -518,7 +518,7 @@ def tensor_src(rng, comps, form):
 
 
 def tensor_sampling_cases(rng, tier):
-    cs = C.CaseSet('sampling_tensor', ['C15.Syntax', 'C15.Model', 'C15.Corr'], 'scheck', 'scase')
+    cs = C.CaseSet('sampling_tensor', ['C15.Syntax', 'C15.Model', 'C15.Call', 'C15.Corr'], 'scheck', 'scase')
     n_cases = 60 if tier == 'quick' else 400
     for it in range(n_cases):
         d = rng.choice([1, 2, 2, 3])
@@ -564,8 +564,8 @@ def tensor_sampling_cases(rng, tier):
 def resample_cases(rng, tier, variants):
     """Resampling(domain, range, interp)(domain.element(callable)) and linear_deform."""
     import odl
-    cs = C.CaseSet('resample', ['C15.Syntax', 'C15.Model', 'C15.Corr'], 'rcheck', 'rcase')
-    cs2 = C.CaseSet('deform', ['C15.Syntax', 'C15.Model', 'C15.Corr'], 'check', 'case')
+    cs = C.CaseSet('resample', ['C15.Syntax', 'C15.Model', 'C15.Call', 'C15.Corr'], 'rcheck', 'rcase')
+    cs2 = C.CaseSet('deform', ['C15.Syntax', 'C15.Model', 'C15.Call', 'C15.Corr'], 'check', 'case')
     n_cases = 120 if tier == 'quick' else 600
     for it in range(n_cases):
         d = rng.choice([1, 1, 2, 2, 3])
